@@ -22,7 +22,7 @@ TIMEOUT = {'quick': 1500, 'thorough': 4 * 3600}
 RULE = ('A case is one input (module index or .mm file) x the set of configurations it was run under. distinct_nontrivial = inputs run under at least two '
         'configurations that produced at least one non-empty file.')
 ASSUMPTIONS = ['fresh subprocess per (batch, hash seed); determinism across machines/Python versions is out of scope']
-FLOORS = {'quick': {'module_inputs': 60, 'nested_axiom_inputs': 20, 'hash_seeds': 8, 'history_cases': 40, 'grown_module_histories': 15, 'translate_inputs': 2, 'inputs_with_memoisation': 20, 'mm_multi_var_targets': 10, 'mm_multi_variable_axiom_inputs': 20}}
+FLOORS = {'quick': {'module_inputs': 60, 'nested_axiom_inputs': 20, 'shared_definition_notation_inputs': 6, 'hash_seeds': 8, 'history_cases': 40, 'grown_module_histories': 15, 'translate_inputs': 2, 'inputs_with_memoisation': 20, 'mm_multi_var_targets': 10, 'mm_multi_variable_axiom_inputs': 20}}
 FLOORS['thorough'] = dict(FLOORS['quick'], module_inputs=500, hash_seeds=16, history_cases=300)
 
 MM_SKIP = {'transfer.mm', 'transfer5000.mm', 'transfer-largest-slice.mm', 'disjointness-alt-lemma.mm', 'svm5.mm', 'perceptron.mm', 'impreflex.mm', 'impreflex-compressed.mm'}
@@ -82,6 +82,8 @@ def shard(ctx):
         ctx.count('module_inputs')
         if ':nested' in case:
             ctx.count('nested_axiom_inputs')
+        if ':sharednot' in case:
+            ctx.count('shared_definition_notation_inputs')
         nontriv = any(not k.endswith('refused') for k in files)
         ctx.case(('mod', ctx.seed, case), nontrivial=nontriv)
         if any(k.startswith('binary:1') for k in files) and files.get('binary:1:.ml-proof') != files.get('binary:0:.ml-proof'):
